@@ -175,8 +175,9 @@ def np_round(ev, state, node):
         return v
     if v.ty == T.REAL:
         # round half to even; the result is kept as a Real that is integral
-        r = z3.Int(fresh_name('round'))
         x = v.term
+        from .values import canon
+        r = canon(T.INT, 'round_half_even', x).term      # rounding is a function of its operand
         state.assume(z3.ToReal(r) - x <= z3.RealVal('1/2'), x - z3.ToReal(r) <= z3.RealVal('1/2'),
                      z3.Implies(z3.Or(z3.ToReal(r) - x == z3.RealVal('1/2'),
                                       x - z3.ToReal(r) == z3.RealVal('1/2')), r % 2 == 0))
@@ -395,6 +396,17 @@ def np_unique(ev, state, node):
                  z3.ForAll([j], z3.Implies(z3.And(0 <= j, j < m),
                                            z3.And(seq_at(c, j) >= 1, seq_at(c, j) <= n,
                                                   seq_at(c, j) == cnt(v.term, seq_at(u, j))))))
+    # a value is counted twice or more exactly when it sits at two different positions
+    # (true of counting; d1 / d2 are the Skolem witnesses of the "only if" direction)
+    d1 = z3.Function(fresh_name('dup1'), T.sort_of(v.ty[1]), z3.IntSort())
+    d2 = z3.Function(fresh_name('dup2'), T.sort_of(v.ty[1]), z3.IntSort())
+    x = z3.Const(fresh_name('ux'), T.sort_of(v.ty[1]))
+    state.assume(
+        z3.ForAll([i, j], z3.Implies(z3.And(0 <= i, i < j, j < n, seq_at(v, i) == seq_at(v, j)),
+                                     cnt(v.term, seq_at(v, i)) >= 2)),
+        z3.ForAll([x], z3.Implies(cnt(v.term, x) >= 2,
+                                  z3.And(0 <= d1(x), d1(x) < d2(x), d2(x) < n,
+                                         seq_at(v, d1(x)) == x, seq_at(v, d2(x)) == x))))
     ty = T.TTuple([u.ty, c.ty])
     return SymVal(ty, T.ctor(ty)(u.term, c.term))
 
